@@ -579,6 +579,27 @@ def run_split(r, obs):
         else:
             verdict(obs, True, "", "")
         per_bufsize[repr(bufsize)] = (real, tags_real)
+        # ---- the same Split object run again (as RunIf, SplitIntoBins or a Source called twice
+        # do): the schedule holds on every run; the twins keep their state like the real
+        # branches, only the scheduling starts afresh
+        if r.get("src") != "long" and real == model:
+            try:
+                model2 = frozen(_c03_model.schedule(twins, kinds, gen.build_flow(flow_r), bufsize,
+                                                    copy_buf, lena.core.LenaStopFill, []))
+                m2exc = None
+            except Exception as e:  # pylint: disable=broad-except
+                model2, m2exc = [], type(e).__name__
+            try:
+                real2 = frozen(list(sp.run(iter(gen.build_flow(flow_r)))))
+                r2exc = None
+            except Exception as e:  # pylint: disable=broad-except
+                real2, r2exc = [], type(e).__name__
+            obs.count("second_runs_vs_model")
+            verdict(obs, real2 == model2 and r2exc == m2exc,
+                    "second-run-of-the-same-split-differs" + (":empty-flow" if not n else ""),
+                    "the second run of one Split object gives %r (%s), the documented schedule "
+                    "on the same branch objects %r (%s); branches=%r flow=%r bufsize=%r copy_buf=%r"
+                    % (real2, r2exc, model2, m2exc, branches, flow_r, bufsize, copy_buf))
     # ---- model-free relation: bufsize independence (own buffers only)
     if copy_buf and len(per_bufsize) >= 2:
         ref_key = sorted(per_bufsize)[0]
